@@ -4,6 +4,7 @@ import (
 	"bufio"
 	"encoding/json"
 	"fmt"
+	"github.com/attestantio/dirk/core"
 	"math/big"
 	"os"
 	"os/exec"
@@ -415,7 +416,13 @@ func C13(tier string) int {
 		fl = append(fl, f)
 	}
 	sort.Strings(fl)
+	tables, err := c13PeerTables(run)
+	if err != nil {
+		run.HarnessErr = err
+		return run.Finish()
+	}
 	run.Coverage = map[string]any{
+		"generations_with_an_instance_that_does_not_know_a_participant": tables,
 		"evaluations":         execs,
 		"distinct_nontrivial": len(outcomes),
 		"rule":                fmt.Sprintf("for (n,t) in {(2,2),(3,2),(3,3),(4,3)} every execution of a full generation on real instances with at most %d faults, where every prepare and execute message (lost, error reply, duplicate with the sender seeing the second reply, duplicate with the sender seeing the first), every contribution request (lost, error reply, random share, contribution made for another identifier, altered commitment, vector one entry short, vector one entry long with a consistent share, vector with no entries, all-zero share, duplicate, and the genuine contribution followed by a second copy with the same share and an altered, short, long or empty vector) and every contribution reply (lost, random share, other identifier, altered commitment, short, long, empty, zero share, and a share raised by a random offset with the next reply to the same instance lowered by it) is a choice point; run in worker processes so that a crash is observed; oracle: after a rejecting fault the client gets an error and no instance holds the account; duplicates are all-or-nothing; no worker dies; distinct = (config, outcome) pairs", bound),
@@ -433,4 +440,51 @@ func C13(tier string) int {
 
 func init() {
 	Registry["C13"] = C13
+}
+
+// c13PeerTables: one instance has not been told of one of the other participants (peer tables are rolled out one instance
+// at a time). Its execute step cannot reach that participant and has to fail; the generation then ends with an error and
+// nobody holds the account. Every (instance, unknown participant, initiator) with three instances, threshold 2.
+func c13PeerTables(run *ev.Run) (int, error) {
+	ids := []uint64{1, 2, 3}
+	cells := 0
+	for _, k := range ids {
+		for _, j := range ids {
+			if j == k {
+				continue
+			}
+			c, err := rig.NewCluster(rig.ClusterOpts{IDs: ids, Unknown: map[uint64][]uint64{k: {j}}})
+			if err != nil {
+				return cells, err
+			}
+			c.SuitableOrder = func(_ uint64, n uint32, all map[uint64]*core.Endpoint) []*core.Endpoint {
+				return endpointsOf(all, ids[:n])
+			}
+			for _, initiator := range ids {
+				if initiator == k {
+					continue // its own table must hold every participant it selects
+				}
+				cells++
+				name := fmt.Sprintf("%s/tables-%d-%d-%d", rig.DistWallet, k, j, initiator)
+				pk, parts, gerr := c.Generate(initiator, name, 2, 3)
+				held := holders(c, name)
+				rp := map[string]any{"check": "C13", "peer_tables": true, "instance": k, "unknown": j, "initiator": initiator}
+				if gerr != nil && len(held) > 0 {
+					run.Violate(fmt.Sprintf("peer-table:failed-with-account:instance=%d:unknown=%d", k, j),
+						fmt.Sprintf("instance %d does not know participant %d; a generation (2 of 3) started on instance %d failed (%v) but instances %v hold the account", k, j, initiator, gerr, held), rp)
+				}
+				if gerr == nil {
+					for _, pr := range verifyGeneration(c, name, pk, parts, 2, 4) {
+						run.Violate(fmt.Sprintf("peer-table:success-inconsistent:instance=%d:unknown=%d:%s", k, j, firstWords(pr, 5)),
+							fmt.Sprintf("instance %d does not know participant %d; a generation (2 of 3) started on instance %d reported success, but %s", k, j, initiator, pr), rp)
+					}
+				}
+				for _, id := range ids {
+					_ = c.Nodes[id].RecvAbort(rig.PeerName(initiator), name)
+				}
+			}
+			c.Close()
+		}
+	}
+	return cells, nil
 }
